@@ -11,12 +11,12 @@ CONSTANTS
   AllowLag = FALSE
   ElectDown = TRUE
   MaxMsgs = 2
-  MaxElect = 2
+  MaxElect = 1
   MaxCrash = 1
   MaxIsrOps = 1
   MaxRejects = 0
   Policies = {"ALL"}
-  UseCheckpoint = FALSE
+  UseCheckpoint = TRUE
   MaxPause = 0
   MaxHold = 0
   Batch = 1
